@@ -163,7 +163,10 @@ func (us *Unstakes) increaseUnstake(v *big.Int, eh int64, sm, revision int) ([]T
 		newValue := new(big.Int).Add(last.GetValue(), v)
 		newHeight := lastExpire
 		if revision < icmodule.RevisionMultipleUnstakes || eh > lastExpire {
-			tl = append(tl, TimerJobInfo{JobTypeRemove, lastExpire})
+			// keep the timer while another slot still expires at lastExpire
+			if !(*us)[:lastIndex].hasExpire(lastExpire) {
+				tl = append(tl, TimerJobInfo{JobTypeRemove, lastExpire})
+			}
 			tl = append(tl, TimerJobInfo{JobTypeAdd, eh})
 			newHeight = eh
 		}
@@ -179,6 +182,16 @@ func (us *Unstakes) increaseUnstake(v *big.Int, eh int64, sm, revision int) ([]T
 		tl = append(tl, TimerJobInfo{JobTypeAdd, eh})
 	}
 	return tl, nil
+}
+
+// hasExpire reports whether any slot expires at h.
+func (us Unstakes) hasExpire(h int64) bool {
+	for _, u := range us {
+		if u.GetExpire() == h {
+			return true
+		}
+	}
+	return false
 }
 
 func (us Unstakes) findIndex(h int64) int64 {
@@ -204,7 +217,10 @@ func (us *Unstakes) decreaseUnstake(v *big.Int, expireHeight int64, revision int
 		case 0, 1:
 			// Remove an unstake slot
 			*us = (*us)[:i]
-			tl = append(tl, TimerJobInfo{Type: JobTypeRemove, Height: u.GetExpire()})
+			// keep the timer while another slot still expires at the same height
+			if !us.hasExpire(u.GetExpire()) {
+				tl = append(tl, TimerJobInfo{Type: JobTypeRemove, Height: u.GetExpire()})
+			}
 			if cmp == 0 {
 				return tl, nil
 			} else {
